@@ -25,6 +25,18 @@ SIM = "deterministic simulation with fault injection (seeded discrete-event simu
 TRUST = "trusted base: the model CA and monitors (self-tested against RFC vectors), the seams replacing tokio/reqwest/async-process, real OpenSSL; a clean batch is evidence, not proof"
 
 CHECKS = [
+    chk("C02", "acmed-sim", "exploration",
+        "seeded renewal and account histories in which successive contents differ in length both ways (chains of 1..4 certificates, restarts, removed files); every completed write through the storage seam is read back from the real file system and must equal exactly the bytes written; after every successful attempt the certificate file equals the CA's served body byte for byte and the key file is the CSR's key",
+        TRUST + "; storage seam performs real open(2)/write(2) on a scratch directory (process-crash durability model, no power loss)", SIM + "; seeded history exploration", "DESIGN.md 7 (C02)"),
+    chk("C03", "acmed-sim", "fault_enumeration",
+        "exhaustive single-fault grid (4 base plans x 14 request positions x 65 network/CA fault kinds, two attempts each) plus seeded random multi-fault sequences; invariant checked on real files at the end of every attempt: certificate file present => parseable chain whose leaf key matches the key file; failed-before-download => a pre-existing matching pair is byte-identical",
+        TRUST + "; only network/CA faults are injected (the statement's scope)", SIM + "; exhaustive single-fault grid + random multi-fault search", "DESIGN.md 7 (C03)"),
+    chk("C06", "acmed-sim", "exploration",
+        "seeded renewal histories over up to 4000 virtual days; oracle on virtual arrival times of the next attempt against [max(t_eval, notAfter-renew_delay-random_early_renew), max(t_eval, notAfter-renew_delay)] with an explicit epsilon; lifetimes from expired to 10 years, delays from 0 to beyond the lifetime, SAN subsets/supersets/permutations, removed files, stepped wall clock, jitter at both ends",
+        TRUST + "; wall-clock steps only while the daemon is stopped", SIM + "; virtual-time exploration", "DESIGN.md 7 (C06)"),
+    chk("C07", "acmed-sim", "fault_enumeration",
+        "exhaustive single-fault grid (network/CA), seeded multi-fault sequences over several attempts and multi-certificate plans with permanently failing subsets; oracles: no panic, no deadlock/livelock (executor detects), every attempt ends, exactly one faithful post-operation report per attempt, >= 1 s pause after a failure, healthy certificates issued once faults stop",
+        TRUST + "; liveness judged only after the last fault; known findings listed in known_findings.txt", SIM + "; exhaustive single-fault grid + random multi-fault search", "DESIGN.md 7 (C07)"),
     chk("C08", "acmed-sim", "fault_enumeration",
         "exhaustive single-error-run grid: every POST position of a two-identifier issuance x 29 error answers x run lengths 1..12, plus never-ready objects at every polling phase; oracle = the CA's per-URL transmission log (count, newest nonce, identical content, outcome)",
         TRUST, SIM + "; exhaustive fault grid", "DESIGN.md 7 (C08)"),
